@@ -40,6 +40,15 @@ UNDEF_RE = re.compile(r"^wild: error: Undefined symbol (\S+), referenced by [^\n
 
 REPLAYS = 20
 NEED = 2
+KNOWN_SIGS = ("error-choice:undefined-vs-undefined", "error-text-embeds-file-id", "error-choice:relocation-vs-relocation")
+
+
+def asm(text, out, cwd):
+    """tools.asm with one retry (an assembler timeout on an overloaded machine is not a verdict)."""
+    try:
+        return tools.asm(text, out, cwd=cwd)
+    except Inconclusive:
+        return tools.asm(text, out, cwd=cwd)
 
 
 # ------------------------------------------------------------------------------------------------
@@ -71,7 +80,7 @@ def case_strategy(tier):
         "warn_unresolved": st.sampled_from([False, False, True]),
         "zopts": st.integers(0, 3),
         "gc": st.booleans(),
-        "mode": st.sampled_from(["mixed", "mixed-nodup", "undef1", "undefN", "dup", "dup", "ovf", "warn", "unterm", "assert"]),
+        "mode": st.sampled_from(["mixed", "mixed-nodup", "mixed-nodup", "undef1", "undefN", "dup", "ovf", "ovf", "warn", "unterm", "assert"]),
         "variants": st.lists(variant_strategy(), min_size=5, max_size=8),
     })
     return base.map(shape_case)
@@ -143,7 +152,7 @@ def emit(case, d):
     for i in range(n):
         main.append(f"  call f_{i}")
     main.append("  mov $60, %eax\n  xor %edi, %edi\n  syscall")
-    tools.asm("\n".join(main) + "\n", "main.o", cwd=d)
+    asm("\n".join(main) + "\n", "main.o", d)
     undef_pairs = set()
     for i, p in enumerate(per):
         L = [f'.section .text.f_{i},"ax",@progbits', f".globl f_{i}", f"f_{i}:"]
@@ -190,9 +199,8 @@ def emit(case, d):
         L.append("  ret")
         for sym in sorted(set(p["dup"])):
             L.append(f".globl dup_{sym}\ndup_{sym}: ret")
-        tools.asm("\n".join(L + tail) + "\n", f"o{i}.o", cwd=d)
-    tools.asm(".globl big_0, big_1, big_2\nbig_0 = 0x123456789a\nbig_1 = 0x223456789a\nbig_2 = 0x323456789a\n",
-              "abs.o", cwd=d)
+        asm("\n".join(L + tail) + "\n", f"o{i}.o", d)
+    asm(".globl big_0, big_1, big_2\nbig_0 = 0x123456789a\nbig_1 = 0x223456789a\nbig_2 = 0x323456789a\n", "abs.o", d)
     files = ["main.o"] + [f"o{i}.o" for i in range(n)] + ["abs.o"]
     args = ["--gc-sections" if case["gc"] else "--no-gc-sections"]
     if case["warn_unresolved"]:
@@ -342,6 +350,9 @@ class C26(Check):
         args, undef_pairs = emit(case, d)
         dom = {"undef_pairs": undef_pairs, "ovf_objs": {f"o{v['o'] % case['nobj']}.o" for v in case["ovf"]}}
         mask = not ctx.strict
+        # A stored known-finding case may name other known signatures that stay masked even in strict
+        # replay (the FileId text difference accompanies every relocation-error case).
+        keep = set(case.get("keep_masked", []))
         cpu0 = (case["nobj"] * 7 + len(case["variants"]) * 3 + len(case["undef"])) % 16
         ref = self._run(args, None, d, cpu0)
         ref2 = self._run(args, None, d, cpu0)
@@ -362,6 +373,8 @@ class C26(Check):
         for v in case["variants"]:
             got = self._run(args, v, d, cpu0)
             sig, m = self._compare(ref, got, dom, mask)
+            if sig in keep:
+                sig, m = None, "masked:" + sig
             if m:
                 masked[m] = masked.get(m, 0) + 1
             if v["threads"] > 1:
@@ -378,7 +391,7 @@ class C26(Check):
             for _ in range(REPLAYS):
                 g2 = self._run(args, v, d, cpu0)
                 s2, _m = self._compare(ref, g2, dom, mask)
-                if s2 == sig:
+                if s2 == sig or (s2 is not None and s2 not in keep and sig not in KNOWN_SIGS):
                     n += 1
             if n < NEED:
                 info["counters"]["unreproduced_divergence"] = info["counters"].get("unreproduced_divergence", 0) + 1
@@ -388,9 +401,7 @@ class C26(Check):
                           f"error={ref['error'][:400]!r} warnings={len(ref['warnings'])}; variant rc={got['rc']} "
                           f"error={got['error'][:400]!r} warnings={len(got['warnings'])}"))
         if found:
-            known = ("error-choice:undefined-vs-undefined", "error-text-embeds-file-id",
-                     "error-choice:relocation-vs-relocation")
-            found.sort(key=lambda f: (f[0] in known, f[0]))
+            found.sort(key=lambda f: (f[0] in KNOWN_SIGS, f[0]))
             raise Violation(found[0][0], found[0][1])
         for m, c in masked.items():
             info["counters"][m] = c
